@@ -124,6 +124,13 @@ def addPosition (d : Bytes) (pos : Int) (n : Nat) : R Unit :=
     | none => .err (.typeError "EncodingBytes: None + int")
     | some q => setPosition d pos (q + n)
 
+/-- `self.position -= n` : getter, `None - n` is a TypeError, setter -/
+def subPosition (d : Bytes) (pos : Int) (n : Nat) : R Unit :=
+  (getPosition d pos).bind fun q _ =>
+    match q with
+    | none => .err (.typeError "EncodingBytes: None - int")
+    | some q => setPosition d pos ((q : Int) - n)
+
 /-- `currentByte` (629-630): `self[self.position:self.position + 1]` -/
 def currentByte (d : Bytes) (pos : Int) : R (Option Nat) :=
   (getPosition d pos).bind fun q p =>
@@ -177,47 +184,54 @@ def jumpTo (d : Bytes) (pos : Int) (key : Bytes) : R Bool :=
 
 def litB (s : String) : Bytes := s.toList.map Char.toNat
 
+/-- the `while True` loop of `ContentAttrParser.parse`: find a "charset" that is followed (after whitespace) by `=`;
+ends with the position on that `=` -/
+def contentCharsetLoop (d : Bytes) : Nat → Int → R Unit
+  | 0, _ => .err (.outOfFuel "ContentAttrParser.parse")
+  | fuel + 1, pos =>
+    (jumpTo d pos (litB "charset")).bind fun _ p =>                       -- self.data.jumpTo(b"charset")
+    (addPosition d p 1).bind fun _ p =>                                   -- self.data.position += 1
+    (skip d p spaceBytes).bind fun _ p =>                                 -- self.data.skip()
+    (currentByte d p).bind fun c p =>
+    if c = some 61 then .ok () p                                          -- break
+    else contentCharsetLoop d fuel p                                      -- keep looking for the next one
+
 /-- returns the encoding label bytes or `None`; `data` is an `EncodingBytes` at its initial position -1 -/
 def contentAttrParse (d : Bytes) : Except PyErr (Option Bytes) :=
   let pos0 : Int := -1
   let r : R (Option Bytes) :=
-    (jumpTo d pos0 (litB "charset")).bind fun _ p =>                      -- 873
-    (addPosition d p 1).bind fun _ p =>                                   -- 874
-    (skip d p spaceBytes).bind fun _ p =>                                 -- 875
-    (currentByte d p).bind fun c p =>                                     -- 876
-    if c ≠ some 61 then .ok none p                                        -- 878
-    else
-    (addPosition d p 1).bind fun _ p =>                                   -- 879
-    (skip d p spaceBytes).bind fun _ p =>                                 -- 880
-    (currentByte d p).bind fun c p =>                                     -- 882
+    (contentCharsetLoop d (d.length + 2) pos0).bind fun _ p =>
+    (addPosition d p 1).bind fun _ p =>                                   -- self.data.position += 1
+    (skip d p spaceBytes).bind fun _ p =>                                 -- self.data.skip()
+    (currentByte d p).bind fun c p =>
     if c = some 34 ∨ c = some 39 then
-      let quoteMark := c.getD 0                                           -- 883
-      (addPosition d p 1).bind fun _ p =>                                 -- 884
-      (getPosition d p).bind fun oldPosition p =>                         -- 885
-      (jumpTo d p [quoteMark]).bind fun _ p =>                            -- 886 (returns True or raises)
+      let quoteMark := c.getD 0
+      (addPosition d p 1).bind fun _ p =>
+      (getPosition d p).bind fun oldPosition p =>
+      (jumpTo d p [quoteMark]).bind fun _ p =>                            -- returns True or raises
       (getPosition d p).bind fun newPosition p =>
       match oldPosition, newPosition with
-      | some a, some b => .ok (some ((d.drop a).take (b - a))) p          -- 887
+      | some a, some b => .ok (some ((d.drop a).take (b - a))) p
       | _, _ => .err (.typeError "ContentAttrParser: slice with None")
     else
-      (getPosition d p).bind fun oldPosition p =>                         -- 892
+      (getPosition d p).bind fun oldPosition p =>
       match oldPosition with
       | none => .err (.typeError "ContentAttrParser: slice with None")
       | some a =>
-        -- 893-898: the inner try: skipUntil never raises once `position` is valid; its StopIteration handler
-        -- returns the rest of the data
-        match skipUntil d p spaceBytes with
+        -- the inner try: skipUntil never raises once `position` is valid; its StopIteration handler
+        -- returns the rest of the data.  The unquoted value ends at whitespace or ";"
+        match skipUntil d p (spaceBytes ++ [59]) with
         | .ok _ p' =>
           match getPosition d p' with
-          | .ok (some b) p'' => .ok (some ((d.drop a).take (b - a))) p''   -- 895
+          | .ok (some b) p'' => .ok (some ((d.drop a).take (b - a))) p''
           | .ok none _ => .err (.typeError "ContentAttrParser: slice with None")
-          | .stop => .ok (some (d.drop a)) p'                             -- 896-898
+          | .stop => .ok (some (d.drop a)) p'
           | .err e => .err e
-        | .stop => .ok (some (d.drop a)) p                                -- 896-898
+        | .stop => .ok (some (d.drop a)) p
         | .err e => .err e
   match r with
   | .ok v _ => .ok v
-  | .stop => .ok none                                                     -- 899-900
+  | .stop => .ok none
   | .err e => .error e
 
 /-! ### EncodingParser (676-861) -/
@@ -235,7 +249,7 @@ def appendByte (c : Nat) : Nat := if isUpperB c then lowerByte c else c
 def attrValueUnquoted (name value : Bytes) : Bytes → Nat → R (Option AttrB)
   | [], _ => .stop                                                        -- next(data) runs off the end
   | c :: rest, p =>
-    if spacesAngleBrackets.elem c then .ok (some (name, value)) (p + 1 : Nat)     -- 854-855
+    if spacesClosingBracket.elem c then .ok (some (name, value)) (p + 1 : Nat)     -- 854-855
     else attrValueUnquoted name (value ++ [appendByte c]) rest (p + 1)
 
 /-- 10.2-10.5 (830-842) -/
@@ -286,41 +300,52 @@ def getAttribute (d : Bytes) (pos : Int) : R (Option AttrB) :=
       if c = 62 then .ok none p
       else attrName d [] (d.drop p.toNat) p.toNat
 
-/-- the `while True` loop of `handleMeta` (725-752); returns (keepParsing, self.encoding) -/
-def handleMetaLoop (d : Bytes) : Nat → Bool → Option Str → Int → R (Bool × Option Str)
-  | 0, _, _, _ => .err (.outOfFuel "handleMeta")
-  | fuel + 1, hasPragma, pending, pos =>
+/-- the local variables of `handleMeta`: attribute names seen, got pragma, need pragma (`None` / bool), charset
+(`none` = Python `None`: nothing declared yet; `some none` = `False`: a charset attribute that is no encoding label) -/
+structure MetaSt where
+  seen : List Bytes := []
+  gotPragma : Bool := false
+  needPragma : Option Bool := none
+  charset : Option (Option Str) := none
+
+/-- the decision after all attributes have been read: (keepParsing, self.encoding) -/
+def metaDecide (st : MetaSt) : Bool × Option Str :=
+  match st.needPragma with
+  | none => (true, none)
+  | some need =>
+    if need && !st.gotPragma then (true, none)
+    else match st.charset with
+      | some (some e) => (false, some e)
+      | _ => (true, none)
+
+/-- the `while True` loop of `handleMeta`; returns (keepParsing, self.encoding) -/
+def handleMetaLoop (d : Bytes) : Nat → MetaSt → Int → R (Bool × Option Str)
+  | 0, _, _ => .err (.outOfFuel "handleMeta")
+  | fuel + 1, st, pos =>
     (getAttribute d pos).bind fun attr p =>
       match attr with
-      | none => .ok (true, none) p                                        -- 728-729
+      | none =>
+        -- ">" ends the element; at the end of the data `currentByte` raises StopIteration
+        (currentByte d p).bind fun c p =>
+          if c = some 62 then .ok (metaDecide st) p else .ok (true, none) p
       | some (name, value) =>
-        if name = litB "http-equiv" then                                  -- 731
-          let hasPragma := value == litB "content-type"                   -- 732
-          if hasPragma ∧ pending.isSome then .ok (false, pending) p       -- 733-735
-          else handleMetaLoop d fuel hasPragma pending p
-        else if name = litB "charset" then                                -- 736
-          match lookupEncodingBytes value with                            -- 737-738
-          | some codec => .ok (false, some codec) p                       -- 739-741
-          | none => handleMetaLoop d fuel hasPragma pending p
-        else if name = litB "content" then                                -- 742
-          match contentAttrParse (mkEB value) with                        -- 743-744
-          | .error e => .err e
-          | .ok none => handleMetaLoop d fuel hasPragma pending p
-          | .ok (some tentative) =>
-            match lookupEncodingBytes tentative with                      -- 746
-            | none => handleMetaLoop d fuel hasPragma pending p
-            | some codec =>
-              if hasPragma then .ok (false, some codec) p                 -- 748-750
-              else handleMetaLoop d fuel hasPragma (some codec) p         -- 752
-        else handleMetaLoop d fuel hasPragma pending p
-
-/-- `handleMeta()` (718-752) -/
-def handleMeta (d : Bytes) (pos : Int) : R (Bool × Option Str) :=
-  (currentByte d pos).bind fun c p =>
-    match c with
-    | some c => if !isSpaceB c then .ok (true, none) p                    -- 719-721
-                else handleMetaLoop d (d.length + 2) false none p
-    | none => .ok (true, none) p       -- b"" not in spaceCharactersBytes (unreachable: position < len)
+        if st.seen.elem name then handleMetaLoop d fuel st p              -- only the first attribute of a name counts
+        else
+          let st := { st with seen := name :: st.seen }
+          if name = litB "http-equiv" then
+            handleMetaLoop d fuel (if value = litB "content-type" then { st with gotPragma := true } else st) p
+          else if name = litB "charset" then
+            handleMetaLoop d fuel { st with charset := some (lookupEncodingBytes value), needPragma := some false } p
+          else if name = litB "content" then
+            match contentAttrParse (mkEB value) with
+            | .error e => .err e
+            | .ok none => handleMetaLoop d fuel st p
+            | .ok (some tentative) =>
+              if st.charset.isSome then handleMetaLoop d fuel st p
+              else match lookupEncodingBytes tentative with
+                | none => handleMetaLoop d fuel st p
+                | some codec => handleMetaLoop d fuel { st with charset := some (some codec), needPragma := some true } p
+          else handleMetaLoop d fuel st p
 
 /-- the `while attr is not None` loop of `handlePossibleTag` (779-781) -/
 def readAllAttributes (d : Bytes) : Nat → Int → R Unit
@@ -334,17 +359,26 @@ def readAllAttributes (d : Bytes) : Nat → Int → R Unit
 /-- `handleOther()` (784-785) -/
 def handleOther (d : Bytes) (pos : Int) : R Bool := jumpTo d pos [62]
 
-/-- `handlePossibleTag(endTag)` (761-782) -/
+/-- `handlePossibleTag(endTag)` -/
 def handlePossibleTag (d : Bytes) (endTag : Bool) (pos : Int) : R Bool :=
   (currentByte d pos).bind fun c p =>
-    if !(c.map isLetterB).getD false then                                 -- 763
-      if endTag then                                                      -- 767-769
+    if !(c.map isLetterB).getD false then
+      if endTag then
         (previous d p).bind fun _ p => (handleOther d p).bind fun _ p => .ok true p
-      else .ok true p                                                     -- 770
+      else
+        -- nothing starts at this "<": step back so that the main loop examines the byte after it
+        (previous d p).bind fun _ p => .ok true p
     else
-      (skipUntil d p spacesAngleBrackets).bind fun c p =>                 -- 772
-        if c = some 60 then (previous d p).bind fun _ p => .ok true p     -- 773-776
-        else (readAllAttributes d (d.length + 2) p).bind fun _ p => .ok true p    -- 779-782
+      (skipUntil d p spacesClosingBracket).bind fun _ p =>
+        (readAllAttributes d (d.length + 2) p).bind fun _ p => .ok true p
+
+/-- `handleMeta()` -/
+def handleMeta (d : Bytes) (pos : Int) : R (Bool × Option Str) :=
+  (currentByte d pos).bind fun c p =>
+    if !(c.map fun c => isSpaceB c || c = 47).getD false then
+      -- "<meta" is only the beginning of the name of some other tag
+      (subPosition d p 4).bind fun _ p => (handlePossibleTag d false p).bind fun b p => .ok (b, none) p
+    else handleMetaLoop d (d.length + 2) {} p
 
 /-- one dispatch row (701-708): `none` = key did not match; StopIteration of the handler is caught (706-708) -/
 def dispatchRow (d : Bytes) (pos : Int) (key : Bytes) (handler : String) : R (Option (Bool × Option Str)) :=
@@ -352,10 +386,12 @@ def dispatchRow (d : Bytes) (pos : Int) (key : Bytes) (handler : String) : R (Op
     if !m then .ok none p
     else
       let r : R (Bool × Option Str) :=
-        if handler = "handleComment" then (jumpTo d p (litB "-->")).bind fun b p => .ok (b, none) p        -- 714-716
+        if handler = "handleComment" then
+          -- the two dashes of "<!--" may also be those of the closing "-->"
+          (subPosition d p 2).bind fun _ p => (jumpTo d p (litB "-->")).bind fun b p => .ok (b, none) p
         else if handler = "handleMeta" then handleMeta d p
-        else if handler = "handlePossibleEndTag" then                                                       -- 757-759
-          (next d p).bind fun _ p => (handlePossibleTag d true p).bind fun b p => .ok (b, none) p
+        else if handler = "handlePossibleEndTag" then
+          (handlePossibleTag d true p).bind fun b p => .ok (b, none) p
         else if handler = "handleOther" then (handleOther d p).bind fun b p => .ok (b, none) p
         else if handler = "handlePossibleStartTag" then
           (handlePossibleTag d false p).bind fun b p => .ok (b, none) p                                     -- 754-755
@@ -402,7 +438,10 @@ def getEncoding (data : Bytes) : Except PyErr (Option Str) :=
 def detectEncodingMeta (data : Bytes) (pos : Nat) : Except PyErr (Option Str) :=
   match getEncoding ((data.drop pos).take numBytesMeta) with
   | .error e => .error e
-  | .ok (some e) => if e = lit "utf-16be" ∨ e = lit "utf-16le" then lookupEncodingStr (some (lit "utf-8")) else .ok (some e)
+  | .ok (some e) =>
+    if e = lit "utf-16be" ∨ e = lit "utf-16le" then lookupEncodingStr (some (lit "utf-8"))
+    else if e = lit "x-user-defined" then lookupEncodingStr (some (lit "windows-1252"))
+    else .ok (some e)
   | .ok none => .ok none
 
 /-! ### determineEncoding (451-511) -/
@@ -491,15 +530,20 @@ def changeEncoding (cur : Str) (conf : Conf) (newEncoding : Label) : Except PyEr
     | .error e => .error e
     | .ok none => .ok .unchanged                                                                 -- 522-523
     | .ok (some ne) =>
-      -- 524-526: a declared UTF-16 means UTF-8
+      -- a document being read as UTF-16 keeps its encoding
+      if cur = lit "utf-16be" ∨ cur = lit "utf-16le" then .ok .nowCertain
+      else
+      -- a declared UTF-16 means UTF-8, a declared x-user-defined means windows-1252
       let mapped : Except PyErr (Option Str) :=
-        if ne = lit "utf-16be" ∨ ne = lit "utf-16le" then lookupEncodingStr (some (lit "utf-8")) else .ok (some ne)
+        if ne = lit "utf-16be" ∨ ne = lit "utf-16le" then lookupEncodingStr (some (lit "utf-8"))
+        else if ne = lit "x-user-defined" then lookupEncodingStr (some (lit "windows-1252"))
+        else .ok (some ne)
       match mapped with
       | .error e => .error e
-      | .ok none => .error (.assertFail "changeEncoding: utf-8")                                 -- 526
+      | .ok none => .error (.assertFail "changeEncoding: assert newEncoding is not None")
       | .ok (some ne) =>
-        if ne = cur then .ok .nowCertain                                                         -- 527-528 (`if` since repair 10ad92e)
-        else .ok (.reparse ne)                                                                   -- 529-533
+        if ne = cur then .ok .nowCertain
+        else .ok (.reparse ne)
 
 /-- `str.lower()`, exact wherever the result contains an ASCII character (A-Z, U+212A → k, U+0130 → i U+0307);
 only compared with the ASCII string "content-type" -/
